@@ -19,7 +19,10 @@ CONSTANTS
   \* @type: Int;
   MAXLEN    \* longest instruction the assembler emits (15 architecturally; 13 for this library)
 
-ASSUME T >= MAXLEN /\ MAXLEN >= 1 /\ Q >= T      \* (one growth step must restore the reserve: Apalache finds the counterexample for Q < T)
+ASSUME T >= MAXLEN /\ MAXLEN >= 1 /\ Q >= T      \* (one growth step from a position inside the buffer must restore the reserve: Apalache finds the counterexample for Q < T)
+
+\* candidates for the capacity after a growth (the trace-bound instance AsmStepEquiv.tla replaces this by a finite range)
+GrowRange == Int
 
 VARIABLES
   \* @type: Int;
@@ -46,12 +49,12 @@ VARIABLES
 vars == <<pos, cap, ext, mode, c, phase, len, n, wlo, whi>>
 
 \* a new instance with a caller buffer of any size, or a library-managed one (T + Q bytes); any mode; any offset the
-\* caller may set (asm_set_offset) that lies inside the buffer
+\* caller may set (asm_set_offset): inside a caller buffer (C07: 0 <= k <= n), anywhere at all on a library-managed one
 Init ==
   /\ ext \in BOOLEAN /\ mode \in {"A", "F", "C"}
   /\ c \in Int /\ c >= 2
   /\ cap \in Int /\ cap >= 0 /\ (~ext => cap = T + Q)
-  /\ pos \in Int /\ pos >= 0 /\ pos <= cap
+  /\ pos \in Int /\ pos >= 0 /\ (ext => pos <= cap)
   /\ phase = "idle" /\ len = 1 /\ n = 0 /\ wlo = -1 /\ whi = -1
 
 \* the parser delivered an instruction of k bytes
@@ -61,12 +64,16 @@ Begin ==
   /\ phase' = "room" /\ n' = 0
   /\ UNCHANGED <<pos, cap, ext, mode, c, wlo, whi>>
 
-\* check_len_or_resize: fewer than T bytes left -> fail on a caller buffer, grow a library-managed one by Q
+\* check_len_or_resize: fewer than T bytes left -> fail on a caller buffer, grow a library-managed one by Q - or, when
+\* asm_set_offset has put the position further out, by the least number of quanta that restores the reserve.  (That the
+\* growth is a whole number of quanta is irrelevant for safety and would make the step relation non-linear; it is part
+\* of AsmMech!GrowCap and checked against this action by AsmStepEquiv.tla.)
+Grown(cp) == cp >= cap + Q /\ cp >= pos + T /\ (cp = cap + Q \/ cp - Q < pos + T)
 Room ==
   /\ phase = "room"
   /\ IF pos + T > cap
      THEN IF ext THEN phase' = "failed" /\ cap' = cap
-                 ELSE phase' = "decide" /\ cap' = cap + Q
+                 ELSE phase' = "decide" /\ \E cp \in GrowRange : Grown(cp) /\ cap' = cp
      ELSE phase' = "decide" /\ cap' = cap
   /\ UNCHANGED <<pos, ext, mode, c, len, n, wlo, whi>>
 
@@ -94,12 +101,21 @@ Reconf ==
   /\ mode' \in {"A", "F", "C"} /\ c' \in Int /\ c' >= 2
   /\ UNCHANGED <<pos, cap, ext, phase, len, n, wlo, whi>>
 
-Next == Begin \/ Room \/ Pad \/ Emit \/ Reconf
+\* asm_set_offset between calls
+SetOffset ==
+  /\ phase = "idle"
+  /\ pos' \in Int /\ pos' >= 0 /\ (ext => pos' <= cap)
+  /\ UNCHANGED <<cap, ext, mode, c, phase, len, n, wlo, whi>>
+
+Next == Begin \/ Room \/ Pad \/ Emit \/ Reconf \/ SetOffset
 
 (* ------------------------------ properties ------------------------------- *)
-\* C07 (and the in-bounds half of C08): every write lies inside the buffer and starts at least T bytes before its end
+\* C07 (and the in-bounds half of C08): every write lies inside the buffer and starts at least T bytes before its end;
+\* the position of a caller buffer never passes its end (a library-managed position may be set beyond the capacity: the
+\* next instruction grows the buffer to it first)
 Safe == /\ wlo >= 0 => (whi <= cap /\ wlo + T <= cap)
-        /\ pos <= cap
+        /\ ext => pos <= cap
+        /\ phase = "decide" => pos + T <= cap
 
 TypeOK ==
   /\ ext \in BOOLEAN /\ mode \in {"A", "F", "C"} /\ phase \in {"idle", "room", "decide", "failed"}
@@ -108,7 +124,7 @@ TypeOK ==
 IndInv ==
   /\ TypeOK
   /\ c >= 2 /\ pos >= 0 /\ cap >= 0 /\ len >= 1 /\ len <= MAXLEN /\ n >= 0 /\ n <= 2
-  /\ pos <= cap
+  /\ ext => pos <= cap
   /\ phase = "decide" => pos + T <= cap
   /\ wlo >= -1 /\ (wlo >= 0 => (whi <= cap /\ wlo + T <= cap))
 
